@@ -31,9 +31,14 @@ TOp == /\ Ev.op \in {"append", "insert", "delidx", "delkey", "setitem", "setvalu
 TProbe == /\ Ev.op = "probe" /\ UNCHANGED <<items, xf>>
           /\ Chk("C15.ProbeFrame", Logged = items)
           /\ \A i \in DOMAIN Ev.keys   : Chk("C15.LookupsAgree", S!ProbeKeyOK(xf, items, Ev.keys[i]))
+          /\ \A i \in DOMAIN Ev.keys   : Chk("C13.LASFileAccess", S!ProbeLasOK(xf, items, Ev.keys[i]))
           /\ \A i \in DOMAIN Ev.ints   : Chk("C15.IntIsPosition", S!ProbeIntOK(items, Ev.ints[i]))
           /\ \A i \in DOMAIN Ev.slices : Chk("C15.SliceIsList", S!ProbeSliceOK(items, Ev.slices[i]))
 
-TNext == HasNext /\ Advance /\ (TStart \/ TOp \/ TProbe)
+\* the section written by LASFile.write() and read back (mnemonic_case = preserve)
+TRoundTrip == /\ Ev.op = "roundtrip" /\ UNCHANGED <<items, xf>>
+              /\ Chk("C13.RoundTrip.readable", Ev.exc = "")
+              /\ Ev.exc = "" => Chk("C13.RoundTrip", S!RoundTripOK(items, Ev.post))
+TNext == HasNext /\ Advance /\ (TStart \/ TOp \/ TProbe \/ TRoundTrip)
 TSpec == TInit /\ [][TNext]_<<tid, l, items, xf>>
 =============================================================================
